@@ -300,7 +300,11 @@ func (d *Data) PutBlocks(v dvid.VersionID, mutID uint64, start dvid.ChunkPoint3d
 			}
 		}
 	}
-	return nil
+
+	// Make sure the advertised extents cover the blocks just written.
+	lastChunk := start
+	lastChunk[0] += int32(span) - 1
+	return d.PostExtents(ctx, start.MinPoint(d.BlockSize()), lastChunk.MaxPoint(d.BlockSize()))
 }
 
 // PutChunk puts a chunk of data as part of a mapped operation.
